@@ -221,11 +221,18 @@ def scaling_leg(ctx):
         for _ in range(2):
             c, trace, zlog = new_client("base")
             feed_impl(c, trace, [hs])
-            m = msg(kind, n)
+            chunked = kind.endswith("-chunked")
+            m = msg(kind.replace("-chunked", ""), n)
             t0 = time.process_time()
             try:
                 with Budget(60.0):
-                    c.dataReceived(m + b"\x02")
+                    if chunked:
+                        # the same message in 256-byte segments: buffering must not re-copy what is already buffered
+                        data = m + b"\x02"
+                        for i in range(0, len(data), 256):
+                            c.dataReceived(data[i:i + 256])
+                    else:
+                        c.dataReceived(m + b"\x02")
             except BaseException as e:  # noqa
                 return None, exc_class(e), len(m)
             dt = time.process_time() - t0
@@ -234,9 +241,9 @@ def scaling_leg(ctx):
             best = dt if best is None else min(best, dt)
         return best, None, len(m)
 
-    for kind in ("rre", "corre", "hextile", "cuttext", "colourmap", "raw"):
+    for kind in ("rre", "corre", "hextile", "cuttext", "colourmap", "raw", "raw-chunked", "cuttext-chunked"):
         # sub-rectangle tables: large enough for a per-item copy of the remaining block to dominate the per-item overhead
-        N = (15000 if kind in ("rre", "corre") else 6000) * (1 if ctx.tier == "quick" else 2)
+        N = (15000 if kind in ("rre", "corre") else 20000 if kind.endswith("-chunked") else 6000) * (1 if ctx.tier == "quick" else 2)
         t1, e1, b1 = cost(kind, N)
         t4, e4, b4 = cost(kind, 4 * N)
         ctx.count("scaling_probes")
